@@ -15,6 +15,10 @@ class Unsupported(Exception):
     pass
 
 
+class Crashed(Exception):
+    pass
+
+
 X86_COPY = {"mov", "movzx", "movsx", "movsxd", "movd", "movq", "movss", "movsd", "movaps", "movups", "movapd", "movupd",
             "movdqa", "movdqu", "vmovd", "vmovq", "vmovss", "vmovsd", "vmovaps", "vmovups", "vmovapd", "vmovupd", "vmovdqa",
             "vmovdqu", "vmovdqa32", "vmovdqa64", "vmovdqu8", "vmovdqu16", "vmovdqu32", "vmovdqu64", "kmovb", "kmovw", "kmovd",
@@ -99,6 +103,8 @@ def reg_size(r):
 
 def translate(rec, want_debug=False):
     """-> dict for RegAlloc.tla, or raises Unsupported(reason)."""
+    if "crashed" in rec:
+        raise Crashed("allocator crashed / hung (signal %s)" % rec["crashed"])
     if rec.get("err", 0) != 0:
         raise Unsupported("compile error %s %s" % (rec.get("err"), rec.get("errmsg")))
     F = Fn(rec)
@@ -401,10 +407,16 @@ def translate(rec, want_debug=False):
     def edge_kill(bi, sb):
         return sorted(live_out.get(bi, set()) - live_in.get(sb, set()))
 
+    consec = []
+
     def original_op(bn, an, bi, sp):
         """I op of an original instruction (before node bn, after node an)"""
         reads, writes, clob, pclob = [], [], [], []
         bops, aops = bn.get("ops", []), an.get("ops", [])
+        for k, info in enumerate(bn.get("rw") or []):
+            nlead = info.get("cons", 0)
+            if nlead > 1 and k + nlead <= len(aops) and all(o["k"] == "r" for o in aops[k:k + nlead]):
+                consec.append([an["n"], [o["id"] for o in aops[k:k + nlead]]])
         if (not F.x86 and bn.get("i") == "adr" and len(bops) == 2 and bops[1]["k"] == "m" and bops[1]["home"]
                 and an.get("i") == "add" and len(aops) == 3 and F.is_sp(aops[1]) and aops[2]["k"] == "i" and F.tracked(bops[0])):
             # load_address_of(user stack area): adr v, [stack]  ->  add x, sp, #off
@@ -523,7 +535,7 @@ def translate(rec, want_debug=False):
                 code.append(j)
             else:
                 for g in gl:
-                    emit(ai, g)
+                    code.append(g)        # not a jump target: jumps to this node skip the ghosts of the fall-through path
         if sp is None:
             # unreachable in the final CFG
             emit(ai, ["N"])
@@ -700,7 +712,7 @@ def translate(rec, want_debug=False):
     for sv, off in stack_base.items():
         ust.append([off, off + F.vregs[sv]["sz"]])
     res = {"fid": rec["id"], "arch": F.arch, "nloc": max(1, len(F.locs)), "entry": entry, "vsz": vsz or [0], "code": code,
-           "cells": [[F.locs[("c", off)], off, off + sz] for off, sz in cells], "ust": ust}
+           "cells": [[F.locs[("c", off)], off, off + sz] for off, sz in cells], "ust": ust, "consec": consec}
     if want_debug:
         res["_locs"] = {str(v): list(k) for k, v in F.locs.items()}
         res["_dropped_reads"] = F.dropped_reads
